@@ -18,12 +18,19 @@ def not_instruction_methods(rows_path):
     return names, nc
 
 
+def slow_rows(rows_path):
+    text = open(rows_path, encoding='utf-8').read()
+    m = re.search(r'SLOW_ROWS\s*:\s*&\[&str\]\s*=\s*&\[(.*?)\];', text, re.S)
+    return set(re.findall(r'"([A-Za-z_0-9]+)"', m.group(1))) if m else set()
+
+
 def make_method_check(unit):
     def chk(rows):
         u = kx.UNITS[unit]
         pub = kx.public_methods(unit)
         non_inst, not_cov = not_instruction_methods(os.path.join(common.VERIF, u['rows']))
-        covered = set(r.split('__')[0] for r in rows)
+        # every row of the table counts (rows left to the thorough tier are reported separately)
+        covered = set(r.split('__')[0] for r in kx.row_names(os.path.join(common.VERIF, u['rows'])))
         listed = set(non_inst) | set(n for n, _ in not_cov)
         missing = [m for m in pub if m not in covered and m not in listed]
         extra = sorted(c for c in covered if c not in pub)
@@ -31,16 +38,50 @@ def make_method_check(unit):
     return chk
 
 
-def run(prop, unit, tier, assumptions, samples, not_decided, slow_rows=()):
+def verus_unit_step(vspec_name):
+    """extra step: a Verus unit that belongs to the same property (e.g. label arithmetic, unbounded distances)."""
+    import vx
+
+    def step(rep, cov):
+        nviol = 0
+        workdir = common.ensure_dir(os.path.join(common.BUILD, 'vx'))
+        try:
+            res = vx.verify_unit(os.path.join(common.VERIF, 'contracts', vspec_name), workdir)
+        except vx.Undecided as e:
+            rep.undecide(str(e))
+            return 0
+        cov['obligations'] += res['obligations']
+        cov['checker_cmd'] += ' ; ' + res['cmd']
+        cov['trusted_base'] += ['[%s] %s' % (res['unit'], t) for t in res['trusted']]
+        cov['units'].append(dict(unit=res['unit'], verus=res['stats'], wall_s=res['wall_s'], reach=res['reach'],
+                                 functions_under_contract=res['functions_under_contract'], rewrites_applied=res['rewrites_applied'], sources=res['sources']))
+        cov['functions_under_contract'] += ['%s::%s' % (res['unit'], f) for f in res['functions_under_contract']]
+        seen = set()
+        for f in res['failures']:
+            if f['obligation'] in seen:
+                continue
+            seen.add(f['obligation'])
+            rep.violation('verus:%s:%s:%s' % (res['unit'], f['function'], f['kind']), f['obligation'],
+                          dict(unit=res['unit'], function=f['function'], kind=f['kind'], clause=f['clause'], verus_output=f['verus_output'],
+                               note='label arithmetic is decided by Verus (unbounded distances); the bounded label rows of the thorough tier give concrete counterexamples'), False)
+            nviol += 1
+        cov['discharged'] += res['obligations'] - len(seen)
+        return nviol
+    return step
+
+
+def run(prop, unit, tier, assumptions, samples, not_decided, slow=(), extra_units=(), extra_steps=None, quick_skip=None):
     u = kx.UNITS[unit]
     _non, not_cov = not_instruction_methods(os.path.join(common.VERIF, u['rows']))
+    slow_set = set(slow) | slow_rows(os.path.join(common.VERIF, u['rows']))
 
     def row_filter(unit_name, t):
-        if t == 'thorough':
+        if t == 'thorough' or unit_name != unit:
             return None
         rows = kx.row_names(os.path.join(common.VERIF, u['rows']))
-        return set(r for r in rows if r not in slow_rows)
-    return kprop.run_kani_property(prop, tier, [unit], assumptions=assumptions, samples=samples, not_decided=not_decided,
+        return set(r for r in rows if r not in slow_set and not (quick_skip and quick_skip(r)))
+    return kprop.run_kani_property(prop, tier, [unit] + list(extra_units), assumptions=assumptions, samples=samples, not_decided=not_decided,
                                    row_filter=row_filter, not_covered=['%s: %s' % nc for nc in not_cov],
-                                   method_check={unit: make_method_check(unit)},
-                                   extra_cov=dict(slow_rows_only_in_thorough=sorted(slow_rows)))
+                                   method_check={unit: make_method_check(unit)}, extra_steps=extra_steps,
+                                   jobs=(4 if tier == 'thorough' else 14),
+                                   extra_cov=dict(slow_rows_only_in_thorough=sorted(slow_set)))
